@@ -499,6 +499,10 @@ class Executor:
         rec["noncont"] = noncont
         if noncont and not a.get("strict"):
             rec["ref_relaxed"] = self.ref_ops(op[1], op, relax=True)
+        elif noncont and out.get("exc") and out["exc"] not in ("IntegerVariableError", "NonLinearError", "NoObjectiveError"):
+            # strict mode raised something else: acceptable only if the model cannot be solved at all,
+            # integrality or not (its all-continuous twin raises the same class in a pristine process)
+            rec["ref_unsolvable"] = self.ref_ops(op[1], op, relax=True)
         return out
 
     def _call_from_fresh_site(self, P, kw, shared=False):
